@@ -1488,9 +1488,31 @@ fn c04_check(tier: &str, replay: Option<&str>) -> i32 {
             tasks.push(json!({"hist": names, "part": part, "parts": pp, "cap": cap_h, "pair_limit": pl_h, "torn": torn_h, "via_exec": via_exec}));
         }
     }
+    // shortest histories first; the thorough tier works through them in rounds and stops taking
+    // new rounds after its wall-clock budget (reported as a cap: what was finished is complete)
+    tasks.sort_by_key(|t| (t["hist"].as_array().map(|a| a.len()).unwrap_or(0), t["via_exec"].as_u64().unwrap_or(0)));
+    let wall_budget: f64 = std::env::var("TCSS_C04_WALL_S").ok().and_then(|s| s.parse().ok()).unwrap_or(if quick { 600.0 } else { 2400.0 });
+    let all_tasks = tasks.len();
     let mut pool = crate::pool::Pool::spawn(threads(), "crash", &json!({"seed": seed()}));
-    let results = pool.map(&tasks);
+    let mut results = vec![];
+    let mut done = 0usize;
+    let round = (threads() * 6).max(16);
+    let t_start = std::time::Instant::now();
+    while done < tasks.len() {
+        if t_start.elapsed().as_secs_f64() > wall_budget {
+            break;
+        }
+        let end = (done + round).min(tasks.len());
+        results.extend(pool.map(&tasks[done..end]));
+        done = end;
+    }
     drop(pool);
+    if done < all_tasks {
+        let skipped: std::collections::BTreeSet<usize> = tasks[done..].iter().map(|t| t["hist"].as_array().map(|a| a.len()).unwrap_or(0)).collect();
+        rep.cov("cap", json!(format!("wall-clock budget of {wall_budget} s used up after {done} of {all_tasks} work units (histories in order of length); not started: units of histories with {:?} operations; everything started was finished", skipped)));
+        tasks.truncate(done);
+    }
+    let capped = done < all_tasks;
     let mut samples = vec![];
     for (k, r) in results.iter().enumerate() {
         match r {
@@ -1570,7 +1592,8 @@ fn c04_check(tier: &str, replay: Option<&str>) -> i32 {
     rep.cov("distinct_nontrivial", json!(distinct));
     rep.cov("rule", json!(format!("one evaluation = one crash image (process-crash image, or power-loss image = last synced content of every file + a subset of the later unsynced writes/truncates in log order) of one crash point (every state-changing VFS call and every request boundary) of one history, recovered by the real SqliteStorage::new + integrity_check + full protocol read-back + one more AddVersion/AddSnapshot per client; process-crash images (thorough: every image of the two-request histories that run while another connection is held open) are in addition recovered the way an operator does it - the real executable built from /repo is started on the image, queried over TCP, killed, and what it leaves must recover to the same state (count: exec_recoveries); all subsets when at most {cap} writes are unsynced, otherwise every prefix, every all-but-one and only-one, and all-but-two / only-two up to {pair_limit} unsynced writes; above 64 unsynced writes (multi-megabyte commits) only the deviations from a prefix, the prefixes themselves being the process-crash images of earlier crash points; distinct = images that differ in bytes or in what had been acknowledged (identical ones are recovered once)")));
     rep.cov("samples", json!(samples));
-    rep.cov("exhaustive", json!(true));
+    rep.cov("exhaustive", json!(!capped));
+    rep.cov("work_units", json!({"finished": done, "planned": all_tasks}));
     rep.cov("subset_cap_log2", json!(cap));
     rep.assume("file-system model: a write may be lost until the file is synced; file creation and unlink are ordered and durable (the same device model as SQLite's own crash tests)");
     rep.assume("the operation log of the shim VFS replayed on the model reproduces the files on disk byte for byte (checked on every run)");
